@@ -5,6 +5,10 @@ V = os.path.dirname(os.path.dirname(os.path.abspath(__file__)))
 
 # id: (level, engine, technique, level text, level note, design section)
 CHECKS = {
+ "C04": ("model_checking", "e1",
+  "explicit enumeration of block-index histories (active chain + every set of <=2 competitor/header-only records, both LevelDB key orders, several write histories) executed on the real binary and compared with the model of the active chain",
+  "For an active chain of 5 blocks, every set of up to two extra records (header-only at/below/beyond the tip, stale sibling with data, failed block with data, FAILED_CHILD header, reorged-out two-block branch), with each competitor's hash ground to sort before and after the active block's key, written as log-only / header-then-upgrade across a compaction / table-only index: csvdump and unspentcsvdump must equal the model of the active chain, rows must be prev-linked and no competitor txid may appear.",
+  "Trusted: rusty-leveldb. Excluded: two fully validated tips of equal height; adversarial header bytes in header-only records.", "6/C04"),
  "C07": ("model_checking", "e1",
   "explicit-state enumeration of all spend histories of a bounded grammar (no state merging), each executed on the real binary and compared with a reference UTXO state machine",
   "Every history of the grammar (3 blocks; coinbases A/B/duplicate txid; up to 2 (quick) or 3 (thorough) non-coinbase transactions in any block; inputs drawn from earlier outputs, later outputs, unknown txids, out-of-range indices and already-referenced outpoints; outputs from address-bearing, OP_RETURN, bare multisig and zero-value kinds) is materialised and dumped with unspentcsvdump; the row set, header, duplicates, file name and summary totals must equal the model's UTXO map. Output-index width sweeps (255/256/65535/65536), --start ranges and two more coins are included.",
